@@ -11,8 +11,15 @@ from dsa import selfcheck, props  # noqa
 
 idx = selfcheck.load_index()
 muts = idx['mutants']
+SHARD = None
+if '--shard' in sys.argv:
+    i_ = sys.argv.index('--shard')
+    SHARD = tuple(int(x) for x in sys.argv[i_ + 1].split('/'))
+    del sys.argv[i_:i_ + 2]
 if len(sys.argv) > 1:
     muts = [m for m in muts if any(a in m['name'] for a in sys.argv[1:])]
+if SHARD:
+    muts = [m for n_, m in enumerate(muts) if n_ % SHARD[1] == SHARD[0]]
 pids = sorted(props.PROPS)
 bad = 0
 for m in muts:
@@ -35,8 +42,10 @@ for m in muts:
 # benign refactors: nothing may fire
 known = json.load(open(os.path.join(VERIF, 'known_findings.json')))
 kset = set((k['property'], k['rule'], k['key']) for k in known['findings'])
-for b in idx.get('benign', []):
+for n_, b in enumerate(idx.get('benign', [])):
     if len(sys.argv) > 1 and not any(a in b['name'] for a in sys.argv[1:]):
+        continue
+    if SHARD and n_ % SHARD[1] != SHARD[0]:
         continue
     r = selfcheck.run_mutant(b, '/repo', pids, want=('violation', 'undecided'))
     if r['status'] != 'ran':
